@@ -383,3 +383,4 @@ def flattened_contract(label, by_name):
 
 
 flattened_contract("by_name", True)
+flattened_contract("all_computes", False)
